@@ -41,6 +41,9 @@ type hgate struct {
 	n      int
 	parked chan struct{}
 	rel    chan struct{}
+	fn     string // park in the nth Height() call made from a function whose name contains fn
+	nth    int    // (defaults: "setLocalHead", 2)
+	within string // if set: only when some outer frame's function name contains it (e.g. the sync loop's goroutine)
 }
 
 func (g *hgate) hit() {
@@ -49,16 +52,35 @@ func (g *hgate) hit() {
 		g.mu.Unlock()
 		return
 	}
-	pc := make([]uintptr, 6)
+	pc := make([]uintptr, 16)
 	n := runtime.Callers(3, pc) // 0 Callers, 1 hit, 2 Height, 3 = Height's caller
 	fr := runtime.CallersFrames(pc[:n])
-	f, _ := fr.Next()
-	if !strings.Contains(f.Function, "setLocalHead") {
+	f, more := fr.Next()
+	if g.within != "" {
+		found := false
+		for more {
+			var o runtime.Frame
+			o, more = fr.Next()
+			if strings.Contains(o.Function, g.within) {
+				found = true
+				break
+			}
+		}
+		if !found {
+			g.mu.Unlock()
+			return
+		}
+	}
+	fn, nth := g.fn, g.nth
+	if fn == "" {
+		fn, nth = "setLocalHead", 2
+	}
+	if !strings.Contains(f.Function, fn) {
 		g.mu.Unlock()
 		return
 	}
 	g.n++
-	if g.n != 2 { // 1st: metrics argument; 2nd: storeHead.Height() >= netHead.Height()
+	if g.n != nth { // setLocalHead: 1st: metrics argument; 2nd: storeHead.Height() >= netHead.Height()
 		g.mu.Unlock()
 		return
 	}
@@ -71,7 +93,8 @@ func (g *hgate) hit() {
 // PH is vhdr.Header plus a Height() that can park its caller.
 type PH struct {
 	vhdr.Header
-	g *hgate
+	g  *hgate
+	g2 *hgate
 }
 
 func (h *PH) New() *PH     { return new(PH) }
@@ -79,6 +102,9 @@ func (h *PH) IsZero() bool { return h == nil }
 func (h *PH) Height() uint64 {
 	if h.g != nil {
 		h.g.hit()
+	}
+	if h.g2 != nil {
+		h.g2.hit()
 	}
 	return h.H
 }
